@@ -13,6 +13,7 @@ CONSTANT OpSet = {"Get", "Peek", "Inval"}
 CONSTANT FreePut = FALSE
 CONSTANT MaxOps = 3
 CONSTANT MaxSteps = 4
+CONSTANT SplitLoad = TRUE
 CONSTANT MaxUpd = 1
 CONSTANT Pool = 4
 CONSTANT SeqPrefix = 0
